@@ -105,7 +105,8 @@ class OperandToken(CompositeBaseToken):
 
 
 class OneLeftOperandExpressionToken(RecursiveCompositeBaseToken):
-    _TOKEN_SETS = [[OperandToken, PercentOperatorToken, CLS], [OperandToken, PercentOperatorToken]]
+    # `operand %`: percent is a postfix operator (it used to be accepted as a binary one as well: =2%3, =2%3%)
+    _TOKEN_SETS = [[OperandToken, PercentOperatorToken]]
 
     @property
     def operator(self) -> PercentToken:
@@ -117,7 +118,7 @@ class OneLeftOperandExpressionToken(RecursiveCompositeBaseToken):
 
 
 class OperatorToken(CompositeBaseToken):
-    _TOKEN_SETS = [[ArithmeticOperatorToken], [LogicalOperatorToken], [AmpersandOperatorToken], [PercentOperatorToken]]
+    _TOKEN_SETS = [[ArithmeticOperatorToken], [LogicalOperatorToken], [AmpersandOperatorToken]]
 
     @property
     def operator(self):
